@@ -27,6 +27,7 @@ type C18Plan struct {
 	Names [][]string `json:"names"` // each name as segments
 	Lead  []bool     `json:"lead"`  // leading separator
 	Trail []bool     `json:"trail"`
+	Late  bool       `json:"late,omitempty"` // fstree: the storage is used again after its Shutdown; scan/unpack: the storage directory is a child of a larger directory structure (as with dataRoot.ChildDir("updates"))
 	Ops   []string   `json:"ops"` // per name: get put delete query | abs rel reldir | scan | entry
 }
 
@@ -36,6 +37,7 @@ var segPool = []string{"a", "b", "..", "..", ".", "", rootName, rootName + "-oth
 
 func genC18(rng *rand.Rand, tier string) *C18Plan {
 	p := &C18Plan{Comp: []string{"fstree", "fstree", "dirstruct", "scan", "unpack"}[rng.IntN(5)], Depth: 1 + rng.IntN(4)}
+	defer func() { p.Late = rng.IntN(3) == 0 }()
 	n := 1 + rng.IntN(12)
 	for i := 0; i < n; i++ {
 		k := 1 + rng.IntN(6)
@@ -196,11 +198,20 @@ func execC18(p *C18Plan, rc *simkit.RunCtx) {
 			return
 		}
 		st = f
+		if p.Late {
+			_ = f.Shutdown()
+			rc.Probe("storage-used-after-shutdown")
+		}
 	case "dirstruct":
 		ds = utils.NewDirStructure(root, 0o755)
 	case "scan", "unpack":
 		reg = &updater.ResourceRegistry{Name: "sim"}
-		if err := reg.Initialize(utils.NewDirStructure(root, 0o755)); err != nil {
+		storageDir := utils.NewDirStructure(root, 0o755)
+		if p.Late {
+			storageDir = utils.NewDirStructure(filepath.Dir(root), 0o755).ChildDir(filepath.Base(root), 0o755)
+			rc.Probe("storage-dir-is-a-child-structure")
+		}
+		if err := reg.Initialize(storageDir); err != nil {
 			rc.Fail("C18.harness", "registry init failed", err.Error())
 			return
 		}
